@@ -77,3 +77,44 @@ package token
 //@ func (Pos).WithScanned
 //@   arith bv
 //@   ensures result.file == p.file && result.offset &^ scannedBit == p.offset &^ scannedBit && ((result.offset & scannedBit != 0) == scanned)
+
+// ---- C02: deterministic order of positions (error lists are sorted by it) ----
+//@ invariant noPosZero: NoPos.file == nil && NoPos.offset == 0
+//@ func cmpBool
+//@   ensures result == ite(!x && y, -1, ite(x && !y, 1, 0))
+
+//@ func (Pos).HasAbsPos
+//@   ensures result == (p.file != nil)
+//@ func (Pos).IsValid
+//@   ensures result == !(p.file == nil && p.offset == 0)
+//@ func (Pos).Filename
+//@   strings abstract
+//@   ensures result == ite(p.file == nil, "", p.file.name)
+//@ func (Pos).Offset
+//@   requires p.file != nil ==> p.file.size >= 0
+//@   ensures result == ite(p.file == nil, 0, clampIdx((p.offset >> 6) - 1, p.file.size))
+
+// the order of Pos.Compare, written from its documentation: equal positions
+// compare 0, NoPos is larger than any valid position, absolute file names go
+// first, then file names bytewise, then offsets
+//@ spec func posKeyOff(p Pos) int { ite(p.file == nil, 0, clampIdx((p.offset >> 6) - 1, p.file.size)) }
+//@ spec func posKeyName(p Pos) string { ite(p.file == nil, "", p.file.name) }
+//@ spec func isAbsName(s string) bool
+//@ spec func sgn(c int) int { ite(c < 0, -1, ite(c > 0, 1, 0)) }
+//@ spec func posCmp(p Pos, q Pos) int { ite(p == q, 0, ite(p.file == nil && p.offset == 0, 1, ite(q.file == nil && q.offset == 0, -1, ite(isAbsName(posKeyName(p)) != isAbsName(posKeyName(q)), ite(isAbsName(posKeyName(p)), -1, 1), ite(lexcmp(posKeyName(p), posKeyName(q)) != 0, lexcmp(posKeyName(p), posKeyName(q)), sgn(posKeyOff(p) - posKeyOff(q))))))) }
+
+//@ func path/filepath.IsAbs
+//@   assumed A-ext filepath.IsAbs: pure
+//@   pure
+//@   ensures result == isAbsName(path)
+
+//@ func (Pos).Compare
+//@   strings abstract
+//@   requires (p.file != nil ==> p.file.size >= 0) && (p2.file != nil ==> p2.file.size >= 0)
+//@   ensures result == posCmp(p, p2)
+//@   ensures -1 <= result && result <= 1
+
+// (P) C02 "byte-identical output ... including error text": the comparator that
+// orders error lists is antisymmetric and reflexive, so sorting is deterministic
+//@ lemma posCmp_antisym: forall p, q Pos :: posCmp(p, q) == 0 - posCmp(q, p)
+//@ lemma posCmp_refl: forall p Pos :: posCmp(p, p) == 0
